@@ -196,6 +196,12 @@ class Check:
         self.rule = ''
         self.tlc_runs = []
         self.known = [f for f in load_known_findings().get('findings', []) if f.get('property') == pid]
+        rdir = os.path.join(VERIF, 'replays', pid)
+        if os.path.isdir(rdir):                  # replay files of earlier runs of this check and tier are stale
+            tag = '' if REPO == '/repo' else f'mut{os.getpid()}-'
+            for name in os.listdir(rdir):
+                if name.startswith(f'{tag}{tier}-') or (REPO == '/repo' and name.startswith('mut')):
+                    os.unlink(os.path.join(rdir, name))
         self._known_printed = set()
 
     # -- TLC -----------------------------------------------------------------------------------
@@ -343,6 +349,10 @@ def validate_traces(chk, module, cfg, traces, timeout=1800, batch=4000, env=None
             raise MachineryError(f'trace validation with {module} explored no states:\n' +
                                  '\n'.join(res.out.splitlines()[-30:]))
         for line in res.out.splitlines():
+            if line.startswith('<<"') and not line.startswith('<<"REJECTED"') and not line.startswith('<<"EXPECT"'):
+                if not hasattr(chk, 'printed'):
+                    chk.printed = []
+                chk.printed.append(line.strip())
             mat = _REJ.match(line.strip())
             if mat:
                 tid = mat.group(1).strip('"')
